@@ -354,7 +354,17 @@ impl Session<'_> {
                 Ok(None)
             }
             DoesNotExist => Ok(None),
-            Unchanged { state, .. } | Changed { state } => Ok(state.remove(key)),
+            Changed { state } => Ok(state.remove(key)),
+            Unchanged { state, .. } => {
+                let Some(value) = state.remove(key) else {
+                    return Ok(None);
+                };
+                // The in-memory state now differs from the stored record:
+                // mark it as changed, or `sync` won't persist the removal.
+                let state = std::mem::take(state);
+                self.server_state = new_cell_with(Some(ServerState::Changed { state }));
+                Ok(Some(value))
+            }
         }
     }
 
